@@ -215,13 +215,26 @@ Definition f5_schedule : list act :=
    AWait 0; ACas 0; ADropLis 0].
 
 (* ---------- which machine the source is: read from Gen/Sites.v, i.e. from the source, on every run ---------- *)
-(* both poll functions contain, before their listen() site, the drop of the listener, a load of the counter and
+(* both poll functions contain, before their listen() site, a load of the counter immediately followed by
    event.notify(1) *)
+Fixpoint baton_before_listen (l : list (string * string * list string)) : bool :=
+  match l with
+  | [] => false
+  | (k, r, _) :: rest =>
+      if String.eqb k "listen" then false
+      else if String.eqb k "load" && String.eqb r "this.semaphore.count" then
+        match rest with
+        | (k2, r2, a2) :: _ =>
+            (String.eqb k2 "notify" && String.eqb r2 "this.semaphore.event" && match a2 with [x] => String.eqb x "1" | _ => false end)
+            || baton_before_listen rest
+        | [] => false
+        end
+      else baton_before_listen rest
+  end.
 Definition has_baton (fname : string) : bool :=
   match fn_shape fname with
-  | Some ((("set_none"%string, "*this.listener"%string, []) :: ("load"%string, "this.semaphore.count"%string, []) ::
-           ("notify"%string, "this.semaphore.event"%string, ["1"%string]) :: _), _) => true
-  | _ => false
+  | Some (sites, _) => baton_before_listen sites
+  | None => false
   end.
 Definition gen_baton : bool :=
   has_baton "semaphore::AcquireInner::poll_with_strategy" && has_baton "semaphore::AcquireArcInner::poll_with_strategy".
@@ -233,4 +246,4 @@ Definition f5_report : bool * list act := (lostb (run gen_baton 2 2 f5_schedule)
 Definition ord_report : list (string * bool) :=
   [("semaphore::AcquireInner::poll_with_strategy: count.load() ; event.notify(1) after a successful try_acquire"%string, has_baton "semaphore::AcquireInner::poll_with_strategy");
    ("semaphore::AcquireArcInner::poll_with_strategy: count.load() ; event.notify(1) after a successful try_acquire"%string, has_baton "semaphore::AcquireArcInner::poll_with_strategy")].
-Definition bad_schedule : option (list act) := if fst f5_report then Some f5_schedule else None.
+Definition bad_schedule : option (list act) := if negb gen_baton && fst f5_report then Some f5_schedule else None.
